@@ -18,6 +18,7 @@ import (
 
 	"github.com/tochemey/goakt/v4/internal/internalpb"
 	"github.com/tochemey/goakt/v4/internal/verifrt"
+	"github.com/tochemey/goakt/v4/remote"
 	"github.com/tochemey/goakt/v4/test/data/testpb"
 )
 
@@ -156,11 +157,11 @@ func (c27Idle) PreStart(*Context) error { return nil }
 func (c27Idle) PostStop(*Context) error { return nil }
 func (c27Idle) Receive(*ReceiveContext) {}
 
-func c27GenScript(rng *rand.Rand, i int) c27Script {
+func c27GenScript(rng *rand.Rand, i int, maxTotal int) c27Script {
 	s := c27Script{Callers: 1 + rng.Intn(8), Targets: 1 + rng.Intn(3), Pace: rng.Intn(3), ActorFrom: rng.Intn(3) == 0}
 	s.PerCaller = []int{200, 400, 1000, 2500, 5000}[rng.Intn(5)]
-	if s.Callers*s.PerCaller > 8000 {
-		s.PerCaller = 8000 / s.Callers
+	if s.Callers*s.PerCaller > maxTotal {
+		s.PerCaller = maxTotal / s.Callers
 	}
 	kinds := []string{"clean", "kills", "kills", "kills", "refuse-window", "refuse-window", "killall", "client-close-pending", "system-stop-pending", "backpressure-cancel"}
 	s.Kind = kinds[i%len(kinds)]
@@ -209,14 +210,19 @@ type c27Env struct {
 	t     *testing.T
 	a, b  *c27Node
 	cases int
+	cfg   func() []remote.Option // remote config options of both nodes (nil: none)
 }
 
 func (e *c27Env) nodes() (*c27Node, *c27Node) {
+	var opts []remote.Option
+	if e.cfg != nil {
+		opts = e.cfg()
+	}
 	if e.b == nil {
-		e.b = c27StartNode(e.t, true, nil)
+		e.b = c27StartNode(e.t, true, opts)
 	}
 	if e.a == nil {
-		e.a = c27StartNode(e.t, false, nil)
+		e.a = c27StartNode(e.t, false, opts)
 	}
 	return e.a, e.b
 }
@@ -603,7 +609,7 @@ func TestVerif_C27(t *testing.T) {
 	env := &c27Env{t: t}
 	defer env.Close()
 	for i := 0; i < n; i++ {
-		s := c27GenScript(rng, i+r.Batch)
+		s := c27GenScript(rng, i+r.Batch, r.Pick(4000, 20000))
 		seed := rng.Int63()
 		var hot []string
 		if !r.Quick() {
